@@ -6,6 +6,10 @@ ROOT = os.path.dirname(os.path.dirname(os.path.abspath(__file__)))
 
 # id -> (category, technique, level text, level note, design ref)
 CHECKS = {
+ "C01": ("exploration",
+  "runtime monitoring of 2-4 real instances driven directly (SendOnce/LoadOnce) under PRNG interleavings: per-merge step oracle with a cross-instance tie table, final convergence oracle against the set of versions ever written, replay under other delivery orders",
+  "Hundreds (quick) to thousands (thorough) of generated histories with few keys and conflicting timestamps (incl. 0, equal timestamps on different instances, deletion vs empty value ties) are executed on real LMDBs and real Syncers in native and shadow mode; uploads and merges of arbitrary (not only newest) snapshots are interleaved with application writes; after a closing exchange all instances must hold identical content equal to a highest-timestamp version of everything ever written, within N+1 rounds, independent of the delivery order.",
+  "Sweeper disabled; shadow mode on one host clock; application writes monotone per key per instance; empty values in shadow mode are a separate known-finding sub-family.", "DESIGN.md section 6 C01"),
  "C02": ("exploration",
   "runtime monitoring of the real merge routine: algebraic-law and tie-table oracles over an exhaustively enumerated small domain plus seeded random sets; differential strategy.Update vs Merge inside real LMDB transactions",
   "The real NativeIterator.Merge and strategy.Update (real LMDB write transactions) are executed on every pair and every triple (all 6 orders) of a 25-version domain x 3 format versions x 4 cutoffs x default timestamp x padding, and on seeded random sets. Per-step and per-set oracles (monotone, untouched bytes when not winning, consistent ties, order-insensitive up to the documented retention exception, no LMDB transaction for non-winning merges). Exhaustive on the small domain, sampled beyond; held on the executions explored.",
@@ -14,6 +18,10 @@ CHECKS = {
   "runtime monitoring of the real Sync loop under forced schedules: guarded yield points block the loop between its own steps while the harness commits application transactions; read-back oracle at logical quiescence",
   "Every yield point of the loop (11 points: before/between/after each of Lightning Stream's own transactions, env.Info() calls and Store) x 5 change kinds x pending remote snapshot none/no-news(empty LS transaction)/news x earlier commit x native/shadow is enumerated with the real Sync loop running; plus injections ordered after the merge, a family where LoadOnce itself captures the earlier change (the following SendOnce is empty), empty values, header padding and seeded multi-injection schedules. At each idle state (logical clock) and again after a following remote merge every committed key must read back as committed.",
   "Schedule points are yield points between LMDB transactions/bucket calls (transactions are atomic). Staged remote versions cannot win. Poll intervals 1 ms; verdicts use loop iterations, the wall clock is only a watchdog (inconclusive).", "DESIGN.md section 6 C03"),
+ "C04": ("exploration",
+  "runtime monitoring: per-merge deletion oracles on direct-driven real instances, evaluation of the real config.Sweeper arithmetic over a configuration grid, and end-to-end sweep-then-merge runs with a real sweeper pass",
+  "Delete-heavy histories on real instances (a merged marker hides the key unless something newer is stored; older live versions never resurrect it; every uploaded snapshot carries all markers of the LMDB); the real RetentionDuration/RetentionDurationMinusCutoff over a grid of retention_days x load cutoffs (zero, negative, 1%, around 75%, larger than the retention) plus 10^5 random pairs; real sweeper pass followed by a real LoadOnce of a snapshot that still carries markers on both sides of the cutoff (format versions 1-3, with delay): swept markers must not come back, young markers must propagate.",
+  "Clock reads bracketed; retention model days x 24h with float32 tolerance.", "DESIGN.md section 6 C04"),
  "C05": ("fault_enumeration",
   "online conservation monitor inside the instrumented bucket (invariant checked atomically with every Store/Delete) while real sync loops are crashed at yield points (runtime.Goexit), restarted, cleaned and subjected to scripted storage faults",
   "Enumerated crash points (13 yield points x occurrence) x LMDB kept/emptied x own-snapshot download held back/failing x application writing before/at start-up x second instance; the real cleaner invoked with a virtual clock at every yield point and inside every (failing) Store attempt while a stale instance's only snapshot is merged; fleets with real background cleaners and List/Load/Store/Delete fault bursts below the retry budget. After every bucket mutation the join over the newest snapshots must not lose or lower any key; no upload before the own newest snapshot was merged.",
@@ -42,6 +50,10 @@ CHECKS = {
   "runtime monitoring of the real Sync loop under forced schedules and injected Store faults; the newest own blob in the instrumented bucket is decoded by the independent decoder at every idle state",
   "Same enumerated schedule space as C03 plus Store fault scripts (first 1, 2 or 4 attempts of the upload fail, retry budget 5). Whenever the loop is idle (all staged snapshots merged + 3 activity-free iterations) the newest snapshot under the instance's name must contain every key the application wrote in a version at least as new; Sync returning instead of publishing is a violation.",
   "Forced snapshot interval disabled. Idle = logical clock of loop iterations.", "DESIGN.md section 6 C09"),
+ "C10": ("exploration",
+  "runtime monitoring: online upload-causality monitor over one ordered event log (application commits, yield points, uploads) on real sync loops, no-op re-merge byte/LastTxnID oracle on direct-driven instances, idle-fleet oracle in logical loop iterations",
+  "Every upload of a real Sync loop under the forced schedules of C03/C09 and in fleets of 2-5 loops must be explained by an application commit (or be the first); after direct-drive histories converged, re-merging every snapshot in random order must not change a byte nor LastTxnID; idle fleets must stay silent for 20 loop iterations and upload at most twice after the writers stopped; with a forced snapshot interval the upload rate is bounded by it.",
+  "Forced interval off except in its own family; sweeper off; start-up uploads allowed.", "DESIGN.md section 6 C10"),
  "C11": ("exploration",
   "runtime monitoring of a real non-native Syncer stepped through SendOnce/LoadOnce against a map-based reference model of capture, merge and projection",
   "Generated histories (plain and MDB_INTEGERKEY DBIs incl. key 0, DBI creation, inserts/overwrites/deletes/no-op rewrites, remote snapshots older/newer/deleting/adding DBIs) drive the real capture (SendOnce) and capture+merge+project (LoadOnce) steps; after every step the real application DBIs and the raw shadow DBIs must equal the reference model, capture stamps must fall in the step's clock bracket and be uniform, changed shadow values must be well-formed with the writing transaction's id.",
